@@ -16,15 +16,16 @@ SEEDED = os.path.join(VERIF, "seeded")
 
 
 def import_new():
-    for d in sorted(glob.glob("/tmp/wt_C*/out/mut*")):
-        pid = d.split("/")[2][3:]
-        name = "%s_%s" % (pid, os.path.basename(d))
-        dst = os.path.join(SEEDED, name)
-        if os.path.exists(os.path.join(d, "patch.diff")) and not os.path.exists(dst):
-            os.makedirs(dst)
-            for f in os.listdir(d):
-                if os.path.isfile(os.path.join(d, f)):
-                    shutil.copy(os.path.join(d, f), dst)
+    for pattern, prefix, tag in (("/tmp/wt_C*/out/mut*", "/tmp/wt_", ""), ("/tmp/wt2_C*/out/mut*", "/tmp/wt2_", "r2")):
+        for d in sorted(glob.glob(pattern)):
+            pid = d.split("/")[2][len(prefix.split("/")[-1]):]
+            name = "%s_%s%s" % (pid, tag, os.path.basename(d))
+            dst = os.path.join(SEEDED, name)
+            if os.path.exists(os.path.join(d, "patch.diff")) and not os.path.exists(dst):
+                os.makedirs(dst)
+                for f in os.listdir(d):
+                    if os.path.isfile(os.path.join(d, f)):
+                        shutil.copy(os.path.join(d, f), dst)
 
 
 def evaluate(name, also=""):
@@ -45,7 +46,7 @@ def evaluate(name, also=""):
 
 def write_results():
     rows = []
-    for d in sorted(glob.glob(os.path.join(SEEDED, "C*_mut*"))):
+    for d in sorted(glob.glob(os.path.join(SEEDED, "C*_*mut*"))):
         name = os.path.basename(d)
         rp = os.path.join(d, "result.json")
         if not os.path.exists(rp):
@@ -81,7 +82,7 @@ def main():
     a = ap.parse_args()
     os.makedirs(SEEDED, exist_ok=True)
     import_new()
-    names = [os.path.basename(d) for d in sorted(glob.glob(os.path.join(SEEDED, "C*_mut*")))]
+    names = [os.path.basename(d) for d in sorted(glob.glob(os.path.join(SEEDED, "C*_*mut*")))]
     if a.only:
         names = [n for n in names if n in a.only.split(",")]
     todo = [n for n in names if a.force or not os.path.exists(os.path.join(SEEDED, n, "result.json"))]
